@@ -230,6 +230,10 @@ func init() {
 					}
 					o := pr.run([]byte(in.dump), flags...)
 					hp := filepath.Join(root, fmt.Sprintf("out_%d_%d.html", i, p))
+					if p%2 == 1 {
+						// the report file exists already and is longer than the report (an earlier, larger crash)
+						_ = os.WriteFile(hp, bytes.Repeat([]byte("<p>leftover of an earlier report</p>\n"), 40000), 0o644)
+					}
 					oh := pr.run([]byte(in.dump), append(flags, "-html", hp)...)
 					hb, _ := os.ReadFile(hp)
 					_ = os.Remove(hp)
@@ -244,7 +248,10 @@ func init() {
 						break
 					}
 					if h != refHTML {
-						res.violation(Finding{Property: "C06", Aspect: "pp-html", What: in.name + ": two pp processes write different HTML for the same input (creation time masked)", Input: []byte(in.dump)})
+						res.violation(Finding{Property: "C06", Aspect: "pp-html", What: in.name + ": two pp processes write different HTML for the same input (creation time masked; the second one over an existing, longer file)", Input: []byte(in.dump)})
+						if strings.Contains(h, "leftover of an earlier report") {
+							res.violation(Finding{Property: "C17", Aspect: "pp-html-leftover", What: in.name + ": the HTML report written over an existing file still holds the old file's tail: the document is not the rendering of this input", Input: []byte(in.dump)})
+						}
 						break
 					}
 				}
